@@ -38,3 +38,44 @@ Definition smt_mod (n d : Z) : Z := n mod (Z.abs d).
        n = d * q + r   /\   0 <= r   /\   r <= |d| - 1                                       *)
 Definition divmod_def (n d q r : Z) : bool :=
   (n =? d * q + r) && (0 <=? r) && (r <=? Z.abs d - 1).
+
+(* C27 (d'): the cache of DivModConfig::rewrite (src/rewriters/DivModRewriter.h:30-36, 95-96): one pair of
+   auxiliary variables (.div, .mod) and one set of definitions per distinct (dividend, divisor); a later
+   application with the SAME dividend and the SAME divisor reuses the pair.  Applications are listed in the
+   order rewrite() is called; dividends are abstract terms numbered 0,1,...; the result gives, per
+   application, the index of its pair (in order of creation) and which component replaces it. *)
+From Coq Require Import List Bool.
+Import ListNotations.
+Inductive dm_kind := KDiv | KMod.
+Definition dm_app := (dm_kind * nat * Z)%type.
+Definition key_eqb (a b : nat * Z) : bool := Nat.eqb (fst a) (fst b) && Z.eqb (snd a) (snd b).
+Fixpoint cache_find (defs : list (nat * Z)) (k : nat * Z) (i : nat) : option nat :=
+  match defs with
+  | [] => None
+  | d :: r => if key_eqb d k then Some i else cache_find r k (S i)
+  end.
+Fixpoint rw_apps (defs : list (nat * Z)) (apps : list dm_app) : list (nat * Z) * list (nat * dm_kind) :=
+  match apps with
+  | [] => (defs, [])
+  | (k, n, d) :: r =>
+    match cache_find defs (n, d) 0 with
+    | Some i => let (defs', vs) := rw_apps defs r in (defs', (i, k) :: vs)
+    | None => let (defs', vs) := rw_apps (defs ++ [(n, d)]) r in (defs', (length defs, k) :: vs)
+    end
+  end.
+(* values: rho gives the dividends, sigma the auxiliary pairs *)
+Definition app_val (rho : nat -> Z) (a : dm_app) : Z :=
+  let '(k, n, d) := a in match k with KDiv => smt_div (rho n) d | KMod => smt_mod (rho n) d end.
+Definition aux_val (sigma : nat -> Z * Z) (v : nat * dm_kind) : Z :=
+  match snd v with KDiv => fst (sigma (fst v)) | KMod => snd (sigma (fst v)) end.
+Definition defs_hold (rho : nat -> Z) (sigma : nat -> Z * Z) (defs : list (nat * Z)) : Prop :=
+  forall i n d, nth_error defs i = Some (n, d) -> divmod_def (rho n) d (fst (sigma i)) (snd (sigma i)) = true.
+(* evaluation of the rewritten conjunction  /\ (= t_i aux_i)  /\ definitions, with t_i := value of application i *)
+Definition rewritten_holds (rho : nat -> Z) (sigma : nat -> Z * Z) (apps : list dm_app) : bool :=
+  let (defs, vs) := rw_apps [] apps in
+  forallb (fun p => Z.eqb (app_val rho (fst p)) (aux_val sigma (snd p))) (combine apps vs) &&
+  forallb (fun p => divmod_def (rho (fst (snd p))) (snd (snd p)) (fst (sigma (fst p))) (snd (sigma (fst p))))
+          (combine (seq 0 (length defs)) defs).
+(* the canonical extension: pair i gets the Euclidean quotient and remainder of its definition *)
+Definition canon_sigma (rho : nat -> Z) (defs : list (nat * Z)) (i : nat) : Z * Z :=
+  match nth_error defs i with Some (n, d) => (smt_div (rho n) d, smt_mod (rho n) d) | None => (0, 0) end.
